@@ -81,11 +81,14 @@ def run(ctx: Ctx):
         cases.append(("corpus:" + f.name, json.loads(f.read_text())["case"]))
     n = ctx.scale(600, 12000)
     rng = ctx.rng.fork("db")
+    pre = {}
     for k in range(n):
-        cases.append((f"gen:{k}", rig.gen_case(rng, max_ops=ctx.scale(40, 70))))
+        case, impl = rig.gen_and_run(rng, max_ops=ctx.scale(40, 70))
+        cases.append((f"gen:{k}", case))
+        pre[f"gen:{k}"] = impl
     impl_all, lines_all, bounds = [], [], []
     for name, case in cases:
-        impl = rig.run_impl(case)
+        impl = pre[name] if name in pre else rig.run_impl(case)
         lines = rig.model_lines(case)
         bounds.append((len(lines_all), len(lines)))
         lines_all += lines
@@ -98,6 +101,7 @@ def run(ctx: Ctx):
         ctx.cov["traces_validated_against_impl"] += 1
         ctx.case(case, rig.nontrivial(model))
         ctx.count("clients:" + str(len(case["clients"])))
+        ctx.count("profile:" + case.get("profile", "corpus"))
         ctx.count("len:" + str(min(len(case["ops"]) // 10 * 10, 60)) + "+")
         for q, m in zip(lines, model):
             w = q.split()
